@@ -69,8 +69,11 @@ fn eval_ok(s: &mut SutSession, f: &Sx) -> Result<Sx, String> {
     }
 }
 
-fn run_template(ctx: &Ctx, kind: &str, live: usize, n: usize) -> Option<(String, String)> {
-    let mut s = SutSession::new(RunOpts { instr_budget: usize::MAX / 4, ..RunOpts::default() });
+fn run_template(ctx: &Ctx, kind: &str, live: usize, n: usize, sliced: bool) -> Option<(String, String)> {
+    // sliced: the whole computation is driven with prepare_eval + run_count(1000), the way the
+    // wasm front end drives the VM (collections then only happen at the pauses)
+    let mode = if sliced { crate::session::EvalMode::Sliced(vec![1000]) } else { crate::session::EvalMode::Whole };
+    let mut s = SutSession::new(RunOpts { instr_budget: usize::MAX / 4, mode, ..RunOpts::default() });
     let obs = install_observer(&mut s, 1);
     // live set: a list of `live` fresh pairs, checksum known
     let setup = format!(
@@ -136,12 +139,15 @@ fn run_template(ctx: &Ctx, kind: &str, live: usize, n: usize) -> Option<(String,
     }
     if ctx.counting() {
         ctx.class(&format!("kind:{}", kind));
+        if sliced {
+            ctx.class("driven-in-slices-of-1000-instructions");
+        }
         ctx.class_n("collections", m2.collections);
         ctx.extra_max("max_heap_capacity_cells", m2.heap_cap as u64);
         if m2.collections >= 3 {
-            ctx.nontrivial_str(&format!("{}|{}|{}", kind, live, n));
+            ctx.nontrivial_str(&format!("{}|{}|{}|{}", kind, live, n, sliced));
         }
-        ctx.sample(|| json!({"kind": kind, "live": live, "n": n, "after_n": {"heap_cells": m1.heap_cap, "stack_slots": m1.stack_cap, "bytes": m1.bytes}, "after_10n": {"heap_cells": m2.heap_cap, "stack_slots": m2.stack_cap, "bytes": m2.bytes, "collections": m2.collections}}));
+        ctx.sample(|| json!({"kind": kind, "live": live, "n": n, "sliced": sliced, "after_n": {"heap_cells": m1.heap_cap, "stack_slots": m1.stack_cap, "bytes": m1.bytes}, "after_10n": {"heap_cells": m2.heap_cap, "stack_slots": m2.stack_cap, "bytes": m2.bytes, "collections": m2.collections}}));
     }
     let grew = |a: usize, b: usize, slack: usize| b > a + a / 2 + slack;
     if grew(m1.heap_cap, m2.heap_cap, 8192) {
@@ -184,17 +190,31 @@ impl Prop for C12 {
                 let nn = if is_top { n / 5 } else { n };
                 ctx.count(1);
                 ctx.beat();
-                if let Some((sig, detail)) = run_template(ctx, kind, live, nn) {
+                if let Some((sig, detail)) = run_template(ctx, kind, live, nn, false) {
                     ctx.report("template", json!({"kind": kind, "live": live, "n": nn}), &sig, &detail);
                 }
             }
         }
+        // the same loops driven in slices (prepare_eval + run_count(1000))
+        for kind in ["pairs", "closure-environments", "continuations", "eval-code", "interned-symbols", "mixed"] {
+            idx += 1;
+            if idx % ctx.nshards != ctx.shard {
+                continue;
+            }
+            ctx.count(1);
+            ctx.beat();
+            let nn = n / 2;
+            if let Some((sig, detail)) = run_template(ctx, kind, 10, nn, true) {
+                ctx.report("template", json!({"kind": kind, "live": 10, "n": nn, "sliced": true}), &format!("{}|sliced", sig), &detail);
+            }
+        }
     }
     fn replay(&self, ctx: &Ctx, _kind: &str, payload: &Value) -> Outcome {
+        let sliced = payload["sliced"].as_bool().unwrap_or(false);
         let kind = payload["kind"].as_str().unwrap_or("").to_string();
         let live = payload["live"].as_u64().unwrap_or(0) as usize;
         let n = payload["n"].as_u64().unwrap_or(1000) as usize;
-        match run_template(ctx, &kind, live, n) {
+        match run_template(ctx, &kind, live, n, sliced) {
             Some((sig, detail)) => Outcome::fail(sig, detail, payload.clone()),
             None => Outcome::Pass,
         }
